@@ -178,6 +178,8 @@ class Generator:
             rng = self.src.impl_block_containing(r"^impl<'bump, T: 'bump> Vec<'bump, T>$", src_name)
         elif impl == 'string':
             rng = self.src.impl_block_containing(r"^impl<'bump> String<'bump>$", src_name)
+        elif impl == 'freefn':
+            rng = None
         elif impl == 'intoiterdrop':
             rng = self.src.impl_block_containing(r"^impl<'bump, T> Drop for IntoIter<'bump, T>$", src_name)
         elif impl == 'dfnext':
@@ -271,8 +273,9 @@ class Generator:
         if kind == 'span':
             # region = 'span:ANCHOR1|ANCHOR2': from the statement starting with ANCHOR1 through the `match`/block statement
             # starting with ANCHOR2 (inclusive), wrapped as a block
-            a1, _, a2 = what.partition('|')
-            a1, a2 = a1.replace('~', ' '), a2.replace('~', ' ')
+            parts_ = what.split('|')
+            a1, a2 = parts_[0].replace('~', ' '), parts_[1].replace('~', ' ')
+            what_tail = parts_[2].replace('~', ' ') if len(parts_) > 2 else ''
             m = mask(body)
             k1 = m.find(a1)
             k2 = m.find(a2, k1 + 1)
@@ -285,7 +288,12 @@ class Generator:
                 e += 1
             if e < len(m) and m[e] == ';':
                 e += 1
-            return '{\n        ' + body[k1:e] + '\n    }'
+            txt = body[k1:e]
+            # close blocks (e.g. `unsafe {`) that were opened inside the span and end after it
+            mt = mask(txt)
+            opened = mt.count('{') - mt.count('}')
+            tail = (what_tail or '')
+            return '{\n        ' + txt + '\n        ' + ('}' * max(0, opened)) + '\n        ' + tail + '\n    }'
         if kind != 'arm':
             raise ExtractError('unknown region kind')
         m = mask(body)
